@@ -269,7 +269,15 @@ func Explore[C any](r *Run, scope string, mode Mode, gen func(*Ctx) C, eval func
 			return nil
 		}
 		x := &Rec{run: r}
-		eval(cs, x)
+		func() {
+			// the same guard as in the exploring workers: a panic of the code under test is a failure of the case, not of the run
+			defer func() {
+				if p := recover(); p != nil {
+					x.Fail("harness-panic: "+firstLine(fmt.Sprint(p)), "", fmt.Sprintf("%v\n%s", p, debug.Stack()))
+				}
+			}()
+			eval(cs, x)
+		}()
 		return x.fails
 	}
 	r.mu.Unlock()
